@@ -29,6 +29,7 @@ structure PreInv (ts : List Term) : Prop where
   nodup : (ts.map (·.id)).Nodup
   small : ∀ j, (getT ts j).isSome → j < maxId
   fresh : ∀ j, allOf ts j = []
+  freshAnn : ∀ k j, annOf k ts j = []
   closedP : ∀ j p, p ∈ parentsOf ts j → (getT ts p).isSome
   closedC : ∀ j c, c ∈ childrenOf ts j → (getT ts c).isSome
   inverse : ∀ p c, c ∈ childrenOf ts p ↔ p ∈ parentsOf ts c
@@ -36,7 +37,7 @@ structure PreInv (ts : List Term) : Prop where
   sortedC : ∀ j, Sorted (childrenOf ts j)
 
 theorem preInv_nil : PreInv [] := by
-  constructor <;> intros <;> simp_all [getT, allOf, parentsOf, childrenOf, sorted_nil]
+  constructor <;> intros <;> simp_all [getT, allOf, parentsOf, childrenOf, annOf, sorted_nil]
 
 theorem getT_of_mem_nodup {ts : List Term} (h : (ts.map (·.id)).Nodup) {t : Term} (ht : t ∈ ts) :
     getT ts t.id = some t := by
@@ -91,6 +92,11 @@ theorem preInv_newTerm (ts ts' : List Term) (n : List Char) (i : Nat) (ob : Bool
         split
         · rename_i hj; subst hj; simp [hnone]
         · rfl
+      have hAnn : ∀ k j, annOf k (ts ++ [{ id := i, name := n, obsolete := ob, replacement := rp }]) j = annOf k ts j := by
+        intro k j; simp only [annOf, hg]
+        split
+        · rename_i hj; subst hj; cases k <;> simp [hnone, Term.ann]
+        · rfl
       have hS : ∀ j, (getT ts j).isSome → (getT (ts ++ [{ id := i, name := n, obsolete := ob, replacement := rp }]) j).isSome := by
         intro j hj; rw [hg]; split <;> simp_all
       constructor
@@ -106,6 +112,7 @@ theorem preInv_newTerm (ts ts' : List Term) (n : List Char) (i : Nat) (ob : Bool
         · rename_i hji; subst hji; omega
         · exact h.small j hj
       · intro j; rw [hA]; exact h.fresh j
+      · intro k j; rw [hAnn]; exact h.freshAnn k j
       · intro j p hp; rw [hP] at hp; exact hS p (h.closedP j p hp)
       · intro j c hc; rw [hC] at hc; exact hS c (h.closedC j c hc)
       · intro p c; rw [hC, hP]; exact h.inverse p c
@@ -118,11 +125,11 @@ theorem addParent_terms (ts : List Term) (p c : Nat) (j : Nat) :
     (getT ts' j).isSome = (getT ts j).isSome ∧
     parentsOf ts' j = (if j = c ∧ (getT ts j).isSome then (insert (parentsOf ts j) p).1 else parentsOf ts j) ∧
     childrenOf ts' j = (if j = p ∧ (getT ts j).isSome then (insert (childrenOf ts j) c).1 else childrenOf ts j) ∧
-    allOf ts' j = allOf ts j := by
+    allOf ts' j = allOf ts j ∧ ∀ k, annOf k ts' j = annOf k ts j := by
   intro ts'
   have h1 := getT_modT ts p j (·.addChild c) (fun _ => rfl)
   have h2 := getT_modT (modT ts p (·.addChild c)) c j (·.addParent p) (fun _ => rfl)
-  simp only [ts', parentsOf, childrenOf, allOf, h2, h1]
+  simp only [ts', parentsOf, childrenOf, allOf, annOf, h2, h1]
   cases hg : getT ts j with
   | none => simp
   | some t =>
@@ -133,14 +140,17 @@ theorem addParent_terms (ts : List Term) (p c : Nat) (j : Nat) :
       · have hpc : p = c := by omega
         subst hpc; subst hp
         simp [Term.addChild, Term.addParent, ← hid]
+        intro k; cases k <;> rfl
       · have hpc : ¬ p = c := by omega
         subst hp
         have hjc : ¬ j = c := by omega
         simp [Term.addChild, Term.addParent, ← hid, hc, hpc, hjc]
+        intro k; cases k <;> rfl
     · by_cases hc : t.id = c
       · subst hc
         have hjp : ¬ j = p := by omega
         simp [Term.addChild, Term.addParent, ← hid, hp, hjp]
+        intro k; cases k <;> rfl
       · have hjp : ¬ j = p := by omega
         have hjc : ¬ j = c := by omega
         simp [hp, hc, hjp, hjc]
@@ -153,7 +163,8 @@ theorem preInv_addParent (ts : List Term) (p c : Nat) (h : PreInv ts)
   · rw [modT_ids _ c (·.addParent p) (fun _ => rfl), modT_ids _ p (·.addChild c) (fun _ => rfl)]
     exact h.nodup
   · intro j hj; rw [(H j).1] at hj; exact h.small j hj
-  · intro j; rw [(H j).2.2.2]; exact h.fresh j
+  · intro j; rw [(H j).2.2.2.1]; exact h.fresh j
+  · intro k j; rw [(H j).2.2.2.2 k]; exact h.freshAnn k j
   · intro j q hq
     rw [(H q).1]
     rw [(H j).2.1] at hq
